@@ -49,6 +49,7 @@ class ExcAnalysis:
         self.busy = set()
         self.local_sites = {}
         self.pruned = []
+        self.skip_callees = set()
 
     # ---------------------------------------------------------------- hierarchy
     def bases(self, name):
@@ -257,7 +258,7 @@ class ExcAnalysis:
     # ---------------------------------------------------------------- escaping sets
     def escaping(self, func, none=frozenset(), depth=0):
         """[(Site, path)] raise sites that can leave func (path = list of (func, call node))"""
-        key = (func.qual, none)
+        key = (func.qual, none, frozenset(self.skip_callees))
         if key in self.memo:
             return self.memo[key]
         if key in self.busy or depth > 40:
@@ -280,6 +281,8 @@ class ExcAnalysis:
             if not self.reachable_with(func, ed.node, none):
                 continue
             callee = ed.callee
+            if callee.qual in self.skip_callees:
+                continue
             cn = self.none_params(ed.node, callee, ed.kind)
             for (s, path) in self.escaping(callee, cn, depth + 1):
                 if self.caught_locally(func, ed.node, s.exc):
